@@ -165,7 +165,7 @@ Theorem C18_entry_flags : forall (e : DirEntry) (ft : FatType) (b : list N),
   is_end b = Val (hd 0 (name e) =? 0) /\
   is_valid b = Val (negb (hd 0 (name e) =? 0) && negb (hd 0 (name e) =? 229)) /\
   is_lfn b = Val (attr_lfn (attributes e)) /\
-  (forall sfn, length sfn = 11%nat -> matches b sfn = Val (list_eqb (name e) sfn)).
+  (forall sfn, length sfn = 11%nat -> matches b sfn = Val (negb (attr_lfn (attributes e)) && list_eqb (name e) sfn)).
 Proof. exact serialized_flags. Qed.
 
 Theorem C18_csum : forall contents : list N, csum contents = spec_csum contents.
